@@ -2,7 +2,10 @@
 from __future__ import annotations
 
 import vf
-from circ_props import BUILD, run_histories, replay_case, fold_stress
+from circ_props import BUILD as _BUILD, run_histories, replay_case, fold_stress
+
+# the shared circuit model + the C04 extensions (coq/circuit/CExt.v: unfold_all fixpoint, fold tail)
+BUILD = dict(_BUILD, extracted=list(_BUILD['extracted']) + ['c04x'])
 
 WANT = {'order'}
 
@@ -37,15 +40,19 @@ def run(ctx: vf.Ctx):
                 'non-trivial = history with at least one successful state-changing call; distinct by seed' % ctx.n(30, 40))
     ctx.assumptions += ['Python object aliasing is not modelled (C16)', 'TypeError paths are outside the generated stream',
                         'batch_unfold/copy/pickle/get_region/surround are checked by the reference oracle only (no Coq model)',
-                        'fold is modelled (coq/circuit/CFold.v) and compared on every call; its timeline theorem is partial']
-    ctx.trusted = ['Coq 8.16.1 kernel', 'ExtrOcamlBasic extraction + coq/extract/circuit_driver.ml',
+                        'fold is modelled (coq/circuit/CFold.v) and compared on every call; proved: fold = straighten ; fold_tail and the tail as a whole '
+                        'under tail_ok (evaluated on every real straightened state); straighten as a whole is partial']
+    ctx.trusted = ['Coq 8.16.1 kernel', 'ExtrOcamlBasic extraction + coq/extract/circuit_driver.ml + c04x_driver.ml',
                    'harness/circ_common.py (snapshot through the public read API, reference semantics)']
     run_histories(ctx, WANT, ctx.n(700, 25000), ctx.n(30, 40), classify)
     fold_stress(ctx, WANT, classify)
     ctx.cov['calls_with_timeline_theorem'] = ['append', 'extend', 'append_circuit', 'insert', 'insert_circuit', 'pop', 'batch_pop',
                                             'replace', 'replace_with_circuit', 'unfold', 'compress', 'append_qudit', 'insert_qudit',
                                             'pop_qudit', 'renumber', 'clear', 'add', 'iadd', 'mul', 'imul', 'unfold_all (one pass)']
-    ctx.cov['calls_correspondence_only'] = ['batch_replace', 'unfold_all (fixpoint)', 'fold (partial lemmas)']
+    import c04_ext
+    c04_ext.run(ctx)
+    ctx.cov['calls_with_timeline_theorem'] += ['unfold_all (fixpoint, fuel excluded)', 'fold tail: batch_pop + insert_circuit as a gate']
+    ctx.cov['calls_correspondence_only'] = ['batch_replace', 'fold: straighten as a whole and tail_ok from check_region (partial lemmas)']
     ctx.cov['calls_oracle_only'] = ['batch_unfold', 'copy', 'pickle']
     inverse_and_unitary(ctx)
 
